@@ -87,6 +87,37 @@ func zzSplit() {
 	}
 }
 
+// The same for messages that need MANY fragments (a certificate chain at a small MTU): body lengths 600 and 1300 at
+// MTU 1 and 2 (600..1300 fragments), 3000 at MTU 5 and 70000 (beyond a two-byte length) at MTU 100, arbitrary bytes
+// at the start, in the middle and at the end of the body. However many fragments it takes, none carries more than MTU
+// body bytes, offsets are contiguous and the lengths sum to L.
+//
+//symgo:entry covers=hundreds_of_fragments
+func zzSplitManyFragments() {
+	shape := [][2]int{{600, 1}, {1300, 2}, {1300, 1}, {3000, 5}, {70000, 100}}[zzsymChoice("shape", 5)]
+	l, mtu := shape[0], shape[1]
+	body := make([]byte, l)
+	for _, p := range []int{0, l / 2, l - 1} {
+		body[p] = zzsymU8("body_byte")
+	}
+	c := &Conn{maximumTransmissionUnit: mtu}
+	hs := &handshake.Handshake{Message: &zzRawMsg{typ: handshake.TypeCertificate, body: body}}
+	_, merr := hs.Marshal()
+	zzsymAssert(merr == nil, "marshal_ok")
+	frags, err := c.fragmentHandshake(hs)
+	zzsymAssert(err == nil, "fragment_ok")
+	off := 0
+	for _, f := range frags {
+		n := len(f) - 12
+		zzsymAssert(n >= 0 && n <= mtu, "fragment_body_at_most_mtu")
+		zzsymAssert(zzU24(f[1:4]) == l && zzU24(f[6:9]) == off && zzU24(f[9:12]) == n, "many_fragment_headers")
+		off += n
+	}
+	zzsymAssert(off == l, "fragment_lengths_sum_to_L")
+	zzsymAssert(frags[0][12] == body[0] && frags[len(frags)-1][len(frags[len(frags)-1])-1] == body[l-1], "many_fragment_bodies")
+	zzsymCover("hundreds_of_fragments")
+}
+
 // zzPerm returns the idx-th permutation (factorial number system) of 0..n-1.
 func zzPerm(n, idx int) []int {
 	pool := make([]int, n)
